@@ -18,6 +18,7 @@ import (
 	"context"
 	"encoding/json"
 	"fmt"
+	"io"
 	"os"
 	"time"
 
@@ -101,14 +102,18 @@ func execute(c *hx.NegCase, gen *adaptive) hx.Observed {
 	ctx := context.Background()
 	done := hx.WithTimeout(5*time.Second, func() {
 		pmsg = hx.Catch(func() {
+			var rw io.ReadWriter = conn
+			if c.NetConn {
+				rw = hx.ScriptNetConn{ScriptConn: conn}
+			}
 			if initiator {
 				origin, location := jid.MustParse("me@example.net"), jid.MustParse("example.net")
 				if s2s {
 					origin, location = jid.MustParse("example.org"), jid.MustParse("example.net")
 				}
-				sess, err = xmpp.NewSession(ctx, location, origin, conn, xmpp.SessionState(c.Bits), neg)
+				sess, err = xmpp.NewSession(ctx, location, origin, rw, xmpp.SessionState(c.Bits), neg)
 			} else {
-				sess, err = xmpp.ReceiveSession(ctx, conn, xmpp.SessionState(c.Bits&^hx.NegReceived), neg)
+				sess, err = xmpp.ReceiveSession(ctx, rw, xmpp.SessionState(c.Bits&^hx.NegReceived), neg)
 			}
 		})
 	})
@@ -383,6 +388,17 @@ func oracle(c *hx.NegCase, o *hx.Observed) [][2]string {
 					atHeader = true
 				}
 			}
+		}
+	}
+	if o.Class != "panic" && o.Class != "timeout" {
+		// every bit seen earlier, the initial ones included, is still there at the end
+		// (Ready apart when the run ends in an error)
+		want := cur
+		if o.Class != "ok" {
+			want &^= hx.NegReady
+		}
+		if o.Bits&want != want {
+			fail("monotone", fmt.Sprintf("final state %d lost bits of the earlier state %d", o.Bits, want))
 		}
 	}
 	if o.Class == "ok" {
@@ -687,6 +703,9 @@ func (g *adaptive) nextOutcome(f hx.FeatSpec, st uint8) hx.Outcome {
 	if o.Mask&(S|A) != 0 && r.Chance(1, 2) {
 		o.Restart = true
 	}
+	if o.Restart {
+		o.RW = []string{"", "same", "plain", "tls"}[r.Intn(4)]
+	}
 	o.Err = r.Chance(1, 14)
 	return o
 }
@@ -701,6 +720,7 @@ func genCase(r *hx.Rand) (*hx.NegCase, *adaptive) {
 		c.Tee = 1 + r.Intn(3)
 	}
 	c.WS = r.Chance(1, 5)
+	c.NetConn = r.Bool()
 	g := &adaptive{r: r.Fork(), c: c, max: 2 + r.Intn(9), noise: 12}
 	if r.Chance(1, 6) {
 		g.noise = 45 // the malformed stream
@@ -851,6 +871,7 @@ func systematic(x *runner, r *hx.Rand, budget int) {
 		if recv {
 			c.Bits |= hx.NegReceived
 		}
+		c.NetConn = r.Bool()
 		g := &adaptive{r: r.Fork(), c: c, max: 7, noise: 0}
 		obs := execute(c, g)
 		x.record(c, &obs, "")
@@ -957,6 +978,21 @@ func corpus() []recCase {
 	a2 := hx.FeatSpec{Space: a.Space, Local: "a2"}
 	out = append(out, recCase{Note: "required feature shadowed by a later informational child in the same name space", NegCase: hx.NegCase{
 		Feats: []hx.FeatSpec{a, a2}, In: []hx.Item{hdr, fl(ch(a, true), ch(a2, false))}}})
+	// a caller-asserted Secure bit survives restarts, whatever connection the features return
+	auth := hx.FeatSpec{Space: "urn:x:a", Local: "a", Nec: S, Proh: A, Neg: true, LReq: true}
+	need := hx.FeatSpec{Space: "urn:x:b", Local: "b", Nec: S | A, Proh: R, Neg: true, LReq: true}
+	for _, kind := range []string{"", "same", "plain", "tls"} {
+		for _, nc := range []bool{false, true} {
+			out = append(out, recCase{Note: "initial Secure, restart returning kind '" + kind + "', then a feature that needs Secure (initiator)", NegCase: hx.NegCase{
+				Bits: S, NetConn: nc, Feats: []hx.FeatSpec{auth, need},
+				In:   []hx.Item{hdr, fl(ch(auth, true)), hdr, fl(ch(need, true))},
+				Outs: []hx.Outcome{{Mask: A, Restart: true, RW: kind}, {Mask: R}}}})
+			out = append(out, recCase{Note: "initial Secure, restart returning kind '" + kind + "', then a feature that needs Secure (receiver)", NegCase: hx.NegCase{
+				Bits: S | hx.NegReceived, NetConn: nc, Feats: []hx.FeatSpec{auth, need},
+				In:   []hx.Item{hdr, {Kind: "elem", Space: auth.Space, Local: auth.Local}, hdr, {Kind: "iq", Space: need.Space, Local: need.Local}},
+				Outs: []hx.Outcome{{Mask: A, Restart: true, RW: kind}, {Mask: R}}}})
+		}
+	}
 	// Ready together with a restart
 	out = append(out, recCase{Note: "Ready in the mask of a restarting feature", NegCase: hx.NegCase{
 		Feats: []hx.FeatSpec{a}, In: []hx.Item{hdr, fl(ch(a, false))},
